@@ -258,6 +258,12 @@ func (e *verifC13Exec) newID() string {
 func (e *verifC13Exec) apply(op verifC13WOp) {
 	x := op.Ixn
 	_, existed := e.shadow[x.key()]
+	if op.From != nil {
+		// update by ID of another intention: the ID moves to the new name
+		e.ids[x.key()] = e.ids[op.From.key()]
+		delete(e.ids, op.From.key())
+		existed = true
+	}
 	switch e.plan.Mode {
 	case "entry-incr":
 		e.entryIncr(op)
@@ -345,6 +351,9 @@ func (e *verifC13Exec) apply(op verifC13WOp) {
 		e.f.Fatalf("harness: unknown mode %q", e.plan.Mode)
 	}
 	if op.Kind == "put" {
+		if op.From != nil {
+			delete(e.shadow, op.From.key())
+		}
 		e.shadow[x.key()] = x
 	} else {
 		delete(e.shadow, x.key())
@@ -439,7 +448,7 @@ func (e *verifC13Exec) run() {
 
 type verifC13Obs struct {
 	lists     map[string][]verifC13Row // "all", "dst:<name>", "src:<name>", "mdst:<name>", "msrc:<name>"
-	decisions []string                 // compact, for cross-plan equality
+	decisions []byte                   // one code per panel query in panel order, for cross-plan equality
 }
 
 func verifC13ListNames() []string { return append(append([]string{}, verifC13QueryNames...), verifC13Wild) }
@@ -584,19 +593,7 @@ func (e *verifC13Exec) observe(set []verifC13Ixn) *verifC13Obs {
 			o.lists[pfx+n] = verifC13Rows(res[i])
 		}
 	}
-	names := make([]string, 0, len(o.lists))
-	for n := range o.lists {
-		names = append(names, n)
-	}
-	sort.Strings(names)
-	for _, n := range names {
-		e.checkList(set, n, o.lists[n])
-		if e.tainted {
-			return o
-		}
-	}
-
-	// (4) decisions. Two real paths:
+	// (4) decisions (checked first). Two real paths:
 	//   check-path (Intention.Check, ServiceTopology upstreams): match by SOURCE, decide on DESTINATION — local sources only
 	//   dest-path  (agent authorize, ServiceTopology downstreams, xDS): match by DESTINATION, decide on SOURCE (+ source peer)
 	for _, dst := range verifC13QueryNames {
@@ -620,8 +617,21 @@ func (e *verifC13Exec) observe(set []verifC13Ixn) *verifC13Obs {
 							if err != nil {
 								e.f.Fatalf("harness: IntentionDecision: %v", err)
 							}
-							o.decisions = append(o.decisions, fmt.Sprintf("%s %s@%s->%s da=%v ap=%v: %v/%v/%v", path, src, peer, dst, da, ap, got.Allowed, got.HasPermissions, got.HasExact))
+							code := byte('0')
+							if got.Allowed {
+								code |= 1
+							}
+							if got.HasPermissions {
+								code |= 2
+							}
+							if got.HasExact {
+								code |= 4
+							}
+							o.decisions = append(o.decisions, code)
 							if e.tainted {
+								continue
+							}
+							if got.Allowed == want.Allowed && got.HasPermissions == want.HasPerms && got.HasExact == want.HasExact && got.DefaultAllow == da {
 								continue
 							}
 							q := fmt.Sprintf("%s: %s (peer %q) -> %s, default-allow=%v allow-permissions=%v; candidates %v, model winner %s",
@@ -640,6 +650,18 @@ func (e *verifC13Exec) observe(set []verifC13Ixn) *verifC13Obs {
 					}
 				}
 			}
+		}
+	}
+	// (5) lists: content, precedence numbers, order (after the decisions so that a wrong decision is reported as such)
+	names := make([]string, 0, len(o.lists))
+	for n := range o.lists {
+		names = append(names, n)
+	}
+	sort.Strings(names)
+	for _, n := range names {
+		e.checkList(set, n, o.lists[n])
+		if e.tainted {
+			return o
 		}
 	}
 	return o
@@ -675,12 +697,11 @@ func verifC13CrossCheck(f verifkit.F, c *verifkit.Case, fam string, execs []*ver
 				return
 			}
 		}
-		for j := range a.decisions {
-			if j >= len(b.decisions) || a.decisions[j] != b.decisions[j] {
-				c.Violation(f, "C13/order-dependence/decision/"+fam,
-					"plans #%d (%s) and #%d (%s) end in the same set but decide differently: %q vs %q", base, execs[base].plan.Mode, i, e.plan.Mode, a.decisions[j], b.decisions[j])
-				return
-			}
+		if string(a.decisions) != string(b.decisions) {
+			c.Violation(f, "C13/order-dependence/decision/"+fam,
+				"plans #%d (%s) and #%d (%s) end in the same set but decide differently (panel codes allowed|hasPermissions<<1|hasExact<<2):\n %s\n %s",
+				base, execs[base].plan.Mode, i, e.plan.Mode, a.decisions, b.decisions)
+			return
 		}
 	}
 }
@@ -719,6 +740,14 @@ func verifC13RunCase(f verifkit.F, c *verifkit.Case, set verifC13Set, plans []ve
 			}
 			if p.family() == "legacy" && !op.Ixn.localL4() {
 				f.Fatalf("harness: plan #%d: %s is not expressible through the legacy APIs", i, op.Ixn)
+			}
+			if op.From != nil {
+				if p.family() != "legacy" || op.Kind != "put" {
+					f.Fatalf("harness: plan #%d: update-by-ID renames exist only in the legacy family", i)
+				}
+				if p.Mode == "legacy-id" && op.From.Dst != op.Ixn.Dst {
+					f.Fatalf("harness: plan #%d: Intention.Apply refuses to change the destination of an intention", i)
+				}
 			}
 		}
 	}
@@ -783,6 +812,9 @@ func verifC13Classify(c *verifkit.Case, full, proj []verifC13Ixn, plans []verifC
 			if op.Kind == "del" {
 				c.Label("churn=delete")
 			} else {
+				if op.From != nil {
+					c.Label("churn=rename-by-id")
+				}
 				puts[op.Ixn.key()]++
 				if puts[op.Ixn.key()] > 1 {
 					c.Label("churn=rewrite")
